@@ -17,7 +17,9 @@ base run and for every rotation / variant the harness
     the regions as member gene sets.
 
 The dumps of the runs are compared with the base run in `judge` (no model needed for that).  The
-Lean driver runs C03's model on every run (correspondence on anchors / protoclusters before and
+re-indexing itself is the transcription `Rot.rotateLoc` in Lean (theorem `reindexing_is_a_rotation`); the
+driver recomputes it for every rotation and the real `offset_location` must cover the same bases.  The
+Lean driver runs the whole pipeline model (`Pipe.run`: C03 detection, C05 formation, C06 regions) and C03's model on every run (correspondence on anchors / protoclusters before and
 after the superiors step / final protoclusters with definition domains), evaluates C03's and C06's
 executable specs on what each run reported and returns the spec's chains, so a disagreement
 between two real runs is attributed to the run that violates the spec; that text is the replay detail.
@@ -106,6 +108,8 @@ class C07(Property):
         "detect_protoclusters_and_signatures", "find_dynamic_hits", "RuleDetectionResults.annotate_cds_features",
         "CDSResults.annotate")] + [
         (RP, "DetectionRule.detect"), (RP, "DetectionRule.can_extend_to"), (RP, "Details.in_range"),
+        (RP, "Parser._parse_rule"), (RP, "Parser._parse_superiors"), (RP, "DetectionRule.__init__"),
+        (CP, "Ruleset.copy_with_replacements"), (CP, "Ruleset.__post_init__"), (LOC, "offset_location"),
         (LOC, "connect_locations"), (LOC, "get_distance_between_locations"), (LOC, "locations_overlap"),
         (LOC, "location_contains_other"), (LOC, "location_bridges_origin"), (LOC, "make_forwards"),
         (LOC, "extend_location"),
@@ -133,13 +137,14 @@ class C07(Property):
             "sub-selection of the rules (<= 3 rules; sampled for 4 in the quick tier, all in the deep tier); one case bundles the base "
             "run with all its rotated / re-ordered runs (the count of compared run pairs is added to `evaluations`); non-trivial = the "
             "base run reports a protocluster and some compared run cuts through a protocluster or changes the ruleset; distinct by canonical input")
-    TRUSTED = ["the harness' own re-indexing of gene locations (rotate_loc: split at the new origin, transcription order kept, "
-               "touching pieces re-joined) stands for 'choosing a different origin'; C04's offset theorems say the same about offset_location",
-               "HMMER hit production is not exercised: hits come from dynamic profiles (same hits for every rotation by gene name)",
+    TRUSTED = ["HMMER hit production is not exercised: hits come from dynamic profiles (same hits for every rotation by gene name)",
                "two pass-through wrappers (find_protoclusters, remove_redundant_protoclusters) record arguments/results of the real functions",
-               "candidate formation (formation.py, C05) is compared between runs, not modelled here (C05 owns its model)",
-               "get_ruleset's option handling is exercised by C17, not here: rulesets are built directly (Ruleset(...))",
-               "C03's Lean model is run with the *specification* of get_cds_features_within_location (C08); the real lookup runs in the pipeline"]
+               "get_ruleset's option handling (strictness / limit-to options, data files) is exercised by C17, not here: rulesets are built "
+               "directly and, where the conditions can be written as rule text, a second time through rule_parser.Parser and "
+               "Ruleset.copy_with_replacements (the two must detect identically)",
+               "Pipe.run takes definition CDSes as 'genes in the core with definition domains for the product' (what annotate_cds_features + "
+               "Protocluster.add_cds amount to); GeneFunction bookkeeping itself is not modelled",
+               "C06's model is entered at create_regions with the candidate clusters of C05's model (numbering dictionaries empty)"]
 
     def __init__(self) -> None:
         self.gen = C03()
@@ -314,6 +319,61 @@ class C07(Property):
             rules.reverse()
         return {"len": length, "circ": True, "genes": genes, "rules": rules, "untamed": True}
 
+    def extender_chain_scenario(self, rng: random.Random) -> Dict[str, Any]:
+        """cores that meet only through EXTENDERS: 2-5 anchoring genes further apart than the cutoff, with
+           extendable genes between (some of) them so that the extended cores touch, overlap or come within the
+           cutoff of each other and have to be joined by the second merge_over_origin; the chain may close over the
+           origin; an unrelated rule elsewhere"""
+        unit = rng.choice([1, 10, 1000])
+        c = rng.choice([3, 5, 6]) * unit
+        glen = rng.choice([1, 2]) * unit if unit > 1 else rng.choice([1, 2])
+        nanch = rng.choice([2, 3, 3, 3, 4, 5])
+        genes: List[Dict[str, Any]] = []
+        pos = rng.randrange(0, 4) * unit
+        for i in range(nanch):
+            genes.append({"loc": simple(pos, pos + glen, rng.choice([1, -1])), "hits": [["a", 0]], "hasres": True})
+            if i == nanch - 1:
+                pos += glen
+                break
+            # the stretch to the next anchor: wider than the cutoff, bridged (or not) by extendable genes
+            mode = rng.choice(["bridge", "bridge", "bridge", "half", "none", "two"])
+            gap1 = rng.choice([c - unit, c, max(c // 2, 1), 0, unit]) if unit > 1 else rng.choice([c - 1, c, c // 2, 0, 1])
+            gap2 = rng.choice([c - unit, c, max(c // 2, 1), 0, c + unit]) if unit > 1 else rng.choice([c - 1, c, c // 2, 0, c + 1])
+            e_lo = pos + glen + gap1
+            if mode == "none":
+                pos = pos + glen + c + rng.choice([0, 1, unit])
+                continue
+            genes.append({"loc": simple(e_lo, e_lo + glen, rng.choice([1, -1])),
+                          "hits": [[rng.choice(["x", "x", "x", "b"]), 0]], "hasres": True})
+            end = e_lo + glen
+            if mode == "two":
+                e2 = end + rng.choice([c - 1, c, 0]) if unit == 1 else end + rng.choice([c - unit, c, 0])
+                genes.append({"loc": simple(e2, e2 + glen, rng.choice([1, -1])), "hits": [["x", 0]], "hasres": True})
+                end = e2 + glen
+            pos = end + (gap2 if mode != "half" else c + rng.choice([1, unit]))
+        span = pos
+        # the ring: the chain below half of it; sometimes the far end closes onto the first anchor over the origin
+        length = max(2 * span + 4 * c + rng.randrange(0, 5) * unit, 12 * unit)
+        if rng.random() < 0.5:
+            far = span + (length - span) // 2
+            genes.append({"loc": simple(far, far + glen, rng.choice([1, -1])), "hits": [[rng.choice("qa"), 0]], "hasres": True})
+        shift = rng.choice([0, 0, span // 2, length - genes[0]["loc"]["parts"][0][1], rng.randrange(0, length)])
+        if shift:
+            for g in genes:
+                g["loc"] = rotate_loc(g["loc"], shift % length, length)
+        rng.shuffle(genes)
+        for n, g in enumerate(genes):
+            g["n"] = n
+        nb = rng.choice([0, unit, c // 2])
+        ext = rng.choice([["single", False, "x"], ["cds", False, [["single", False, "x"], ["single", False, "b"]]]])
+        rules = [{"name": "r0", "cutoff": c, "nbhd": nb, "cond": ["single", False, "a"], "sup": [], "ext": ext}]
+        if rng.random() < 0.6:
+            rules.append({"name": "r1", "cutoff": c, "nbhd": nb, "cond": ["single", False, rng.choice(["q", "x", "a"])],
+                          "sup": rng.choice([[], [], ["r0"]]), "ext": None})
+        if rng.random() < 0.3:
+            rules.reverse()
+        return {"len": length, "circ": True, "genes": genes, "rules": rules, "untamed": True}
+
     def rotations(self, rng: random.Random, case: Dict[str, Any], cap: int, every: bool) -> List[int]:
         length = case["len"]
         if not case["circ"] or length < 2:
@@ -375,7 +435,7 @@ class C07(Property):
         return case
 
     def cases(self, rng: random.Random, tier: str, deep: bool) -> Iterator[Dict[str, Any]]:
-        n = 2000 if deep else 600
+        n = 1900 if deep else 500
         cap = 24 if deep else 12
         for i in range(n):
             r = rng.random()
@@ -385,8 +445,10 @@ class C07(Property):
                 case = self.kb_ring(rng)
             elif r < 0.58:
                 case = self.d1_scenario(rng)
-            elif r < 0.66:
+            elif r < 0.64:
                 case = self.neighbour_scenario(rng)
+            elif r < 0.72:
+                case = self.extender_chain_scenario(rng)
             elif r < 0.78:
                 case = self.gen.targeted_case(rng)
             else:
@@ -434,10 +496,75 @@ class C07(Property):
                                               "permutation/sub-selection" if full else "sampled"}
 
     # ------------------------------------------------------------------ implementation adapter
+    @staticmethod
+    def cond_profiles(c: Any) -> List[str]:
+        if c is None:
+            return []
+        if c[0] in ("single", "score"):
+            return [c[2]]
+        if c[0] == "minimum":
+            return list(c[3])
+        return [p for sub in common.cond_subs(c) for p in C07.cond_profiles(sub)]
+
+    def profiles(self, case: Dict[str, Any]) -> List[str]:
+        named = {p for r in case["rules"] for p in self.cond_profiles(r["cond"]) + self.cond_profiles(r["ext"])}
+        return sorted({p for g in case["genes"] for p, _ in g["hits"]} | set(C03.ALL_PROFS) | named)
+
+    def parsed_order(self, case: Dict[str, Any]) -> Optional[List[int]]:
+        """an order in which the rules can be written to a rule file (superiors first), or None when the case's
+           SUPERIORS lists are not what the parser would store (unknown names, cycles, not transitively closed)"""
+        rules = case["rules"]
+        by_name = {r["name"]: r for r in rules}
+        if len(by_name) != len(rules):
+            return None
+        for r in rules:
+            if len(set(r["sup"])) != len(r["sup"]) or r["name"] in r["sup"]:
+                return None
+            for sname in r["sup"]:
+                if sname not in by_name or any(t not in r["sup"] for t in by_name[sname]["sup"]):
+                    return None
+        order: List[int] = []
+        placed: set = set()
+        while len(order) < len(rules):
+            progress = False
+            for i, r in enumerate(rules):
+                if i not in order and all(x in placed for x in r["sup"]):
+                    order.append(i)
+                    placed.add(r["name"])
+                    progress = True
+            if not progress:
+                return None
+        return order
+
+    def build_rules_parsed(self, case: Dict[str, Any], order: List[int]) -> Any:
+        """the same ruleset built the way antiSMASH builds it: rule text through rule_parser.Parser
+           (distances are whole kilobases in a rule file, so they are set on the parsed rules afterwards)"""
+        from antismash.common.hmm_rule_parser import rule_parser as rp
+        lines = []
+        for i in order:
+            r = case["rules"][i]
+            text = f"RULE {r['name']} CATEGORY cat"
+            if r["sup"]:
+                text += " SUPERIORS " + ", ".join(r["sup"])
+            text += f" CUTOFF 1 NEIGHBOURHOOD 1 CONDITIONS {common.cond_str(r['cond'])}"
+            if r["ext"] is not None:
+                text += f" EXTENDERS {common.cond_str(r['ext'])}"
+            lines.append(text)
+        parsed = rp.Parser("\n".join(lines) + "\n", set(self.profiles(case)), {"cat"}).rules
+        by_name = {rule.name: rule for rule in parsed}
+        rules = []
+        for r in case["rules"]:
+            rule = by_name[r["name"]]
+            rule.cutoff = r["cutoff"]
+            rule.neighbourhood = r["nbhd"]
+            rules.append(rule)
+        direct = self.build_rules(case, list(range(len(case["rules"]))))
+        return direct.copy_with_replacements(rules=tuple(rules)) if hasattr(direct, "copy_with_replacements") else None
+
     def build_rules(self, case: Dict[str, Any], idxs: List[int]) -> Any:
         from antismash.common.hmm_rule_parser import rule_parser as rp, cluster_prediction as cp
         from antismash.common.hmm_rule_parser.structures import DynamicHit, DynamicProfile
-        profs = sorted({p for g in case["genes"] for p, _ in g["hits"]} | set(C03.ALL_PROFS))
+        profs = self.profiles(case)
         table: Dict[str, Dict[str, List[Any]]] = {p: {} for p in profs}
         for g in case["genes"]:
             name = f"g{g['n']}"
@@ -541,7 +668,17 @@ class C07(Property):
         runs = [dict(self.one_run(case, case["genes"], ruleset, full), kind="base", k=0, rules=full)]
         for k in case.get("rots", []):
             genes = [dict(g, loc=rotate_loc(g["loc"], k, case["len"])) for g in case["genes"]]
-            runs.append(dict(self.one_run(case, genes, ruleset, full), kind="rot", k=k, rules=full))
+            run = dict(self.one_run(case, genes, ruleset, full), kind="rot", k=k, rules=full)
+            run["offset"] = self.offset_check(case, genes, k)
+            runs.append(run)
+        order = self.parsed_order(case) if case.get("parsed", True) else None
+        if order is not None:
+            try:
+                rs = self.build_rules_parsed(case, order)
+            except Exception:  # pylint: disable=broad-except
+                rs = None    # not expressible as rule text (e.g. cds(a) with a single identifier): no such run
+            if rs is not None:
+                runs.append(dict(self.one_run(case, case["genes"], rs, full), kind="parsed", k=0, rules=full))
         for idxs in case.get("variants", []):
             try:
                 rs = self.build_rules(case, idxs)
@@ -550,6 +687,31 @@ class C07(Property):
                 continue
             runs.append(dict(self.one_run(case, case["genes"], rs, idxs), kind="var", k=0, rules=idxs))
         return {"runs": runs}
+
+    @staticmethod
+    def bases(loc: Dict[str, Any]) -> List[List[int]]:
+        """the set of bases of a location as sorted, merged intervals"""
+        out: List[List[int]] = []
+        for lo, hi in sorted([p[0], p[1]] for p in loc["parts"]):
+            if out and lo <= out[-1][1]:
+                out[-1][1] = max(out[-1][1], hi)
+            else:
+                out.append([lo, hi])
+        return out
+
+    def offset_check(self, case: Dict[str, Any], rotated: List[Dict[str, Any]], k: int) -> Dict[str, Any]:
+        """the real `offset_location(location, -k, wrap_point=len)` must cover the same bases as the harness' re-indexing"""
+        from antismash.common.secmet.locations import offset_location
+        bad, raised = [], 0
+        for g, g2 in zip(case["genes"], rotated):
+            try:
+                real = common.location_json(offset_location(common.make_location(g["loc"]), -k, wrap_point=case["len"]))
+            except Exception:  # pylint: disable=broad-except
+                raised += 1
+                continue
+            if self.bases(real) != self.bases(g2["loc"]):
+                bad.append([g["n"], real["parts"], g2["loc"]["parts"]])
+        return {"bad": bad[:3], "raised": raised}
 
     # ------------------------------------------------------------------ driver
     @staticmethod
@@ -573,7 +735,7 @@ class C07(Property):
             areas = [[i, self.stranded(loc)] for i, loc in run["areas"]] if "areas" in run and "regs" in run else None
             regs = [[self.stranded(loc), ids] for loc, ids in run["regs"]] if "regs" in run else None
             runs.append({"genes": genes, "order": run["order"], "rules": run["rules"], "impl": impl,
-                         "areas": areas, "regions": regs})
+                         "areas": areas, "regions": regs, "k": run["k"] if run["kind"] == "rot" else 0})
         return {"len": case["len"], "circ": case["circ"], "rules": case["rules"], "runs": runs}
 
     # ------------------------------------------------------------------ judge
@@ -602,6 +764,21 @@ class C07(Property):
         i_final = [{k: c[k] for k in ("rule", "core", "loc", "defs")} for c in run["clusters"]]
         if m_final != i_final:
             return f"final protoclusters: model {m_final} vs implementation {i_final}"
+        # the rest of the pipeline: C05's model of formation and C06's model of create_regions on the model's protoclusters
+        pipe = drv.get("pipe")
+        if pipe is not None:
+            late = run.get("stage") in ("candidates", "regions")
+            if "err" in pipe:
+                if not late:
+                    return f"pipeline model raised {pipe['err']}, implementation did not"
+                return ""
+            m_cands = sorted([c[0], sorted(c[1])] for c in pipe["cands"])
+            if "cands" in run and m_cands != run["cands"]:
+                return f"candidate clusters: model {m_cands} vs implementation {run['cands']}"
+            if "regions" in run and sorted(pipe["regions"]) != run["regions"]:
+                return f"regions: model {sorted(pipe['regions'])} vs implementation {run['regions']}"
+            if late:
+                return f"implementation raised {run['err']} at {run['stage']}, the pipeline model did not"
         return ""
 
     @staticmethod
@@ -660,6 +837,16 @@ class C07(Property):
             if "order" not in run:
                 continue
             msg = self.corr_run(run, d)
+            if not msg and run["kind"] == "rot":
+                # the Lean transcription of the re-indexing (Rot.rotateLoc, proved to be a rotation) gives the same parts,
+                # and the real offset_location covers the same bases
+                mine = {g["n"]: rotate_loc(g["loc"], run["k"], length) for g in case["genes"]}
+                lean = {n: loc for n, loc in d.get("rot", [])}
+                diff = [n for n in mine if lean.get(n) != mine[n]]
+                if diff:
+                    msg = f"re-indexing of gene {diff[0]}: Lean {lean.get(diff[0])} vs harness {mine[diff[0]]}"
+                elif run.get("offset", {}).get("bad"):
+                    msg = f"offset_location covers other bases than the re-indexing: {run['offset']['bad'][0]}"
             if msg:
                 corr_detail = f"[{run['kind']} k={run['k']} rules={run['rules']}] {msg}"
                 break
@@ -697,8 +884,24 @@ class C07(Property):
         base_half = half(base, dbase) if case["circ"] else False
         if base_half:
             tags.append("base-half-record")
+        # every run on its own: two reported protoclusters of one rule are further apart than the cutoff
+        # (C03 reported_protoclusters_far_apart_ring / C07 no_chain_reported_in_two_pieces_any_origin)
+        for run, d in zip(runs, druns):
+            if "clusters" in run and d.get("apart") is False:
+                failures.append((None, f"[{run['kind']} k={run['k']} rules={run['rules']}] two reported protoclusters of one rule lie "
+                                       f"within its cutoff of each other (a chain reported in pieces): {self.protos_of(run)}"))
+                break
         for run, d in zip(runs[1:], druns[1:]):
             label = f"[{run['kind']} k={run['k']} rules={run['rules']}]"
+            if run["kind"] == "parsed":
+                # the ruleset built from rule text by the real parser (and Ruleset.copy_with_replacements) is the same ruleset
+                compared += 1
+                keys = ("err", "stage", "anchors", "ext", "removed", "clusters", "cands", "regions")
+                if {k: run.get(k) for k in keys} != {k: base.get(k) for k in keys}:
+                    bad = [k for k in keys if run.get(k) != base.get(k)]
+                    failures.append((None, f"{label} the ruleset parsed from rule text detects differently from the directly built one "
+                                           f"({bad[0]}: {str(base.get(bad[0]))[:300]} vs {str(run.get(bad[0]))[:300]})"))
+                continue
             if run["kind"] == "rot":
                 run_half = half(run, d)
                 if "err" in run or "err" in base:
@@ -805,11 +1008,12 @@ class C07(Property):
     # ------------------------------------------------------------------ shrinking
     def shrink(self, case: Dict[str, Any]) -> Iterator[Dict[str, Any]]:
         rots, variants = case.get("rots", []), case.get("variants", [])
-        if len(rots) + len(variants) > 1:
+        if len(rots) + len(variants) + (1 if case.get("parsed", True) else 0) > 1:
             for k in rots:
-                yield dict(case, rots=[k], variants=[])
+                yield dict(case, rots=[k], variants=[], parsed=False)
             for v in variants:
-                yield dict(case, rots=[], variants=[v])
+                yield dict(case, rots=[], variants=[v], parsed=False)
+            yield dict(case, rots=[], variants=[])
         for i in range(len(case["genes"])):
             yield dict(case, genes=case["genes"][:i] + case["genes"][i + 1:])
         n = len(case["rules"])
